@@ -57,6 +57,9 @@ def plan(tier):
         for mode in ('pipe', 'file', 'sock'):
             o.append(('stdout-' + mode, b'output = stdout\n', 'stdout', mode, 'pipe', None, base_sizes, 'line'))
             o.append(('stderr-' + mode, b'output = stderr\n', 'stderr', 'pipe', mode, None, base_sizes, 'line'))
+        # the caller's streams are in use: stdout fully buffered with unflushed text of the program in it, stderr wide-oriented (fwprintf users)
+        o.append(('stdout-pipe-callers-stdio-in-use', b'output = stdout\n', 'stdout', 'pipe', 'pipe', None, [1, 100, 4096], 'line'))
+        o.append(('stderr-pipe-callers-stdio-in-use', b'output = stderr\n', 'stderr', 'pipe', 'pipe', None, [1, 100, 4096], 'line'))
         return o
     for name, oline, sink, so, se, sb, sizes, framing in outputs():
         cases = []
@@ -85,16 +88,18 @@ def plan(tier):
                     cases.append(dict(cfg=b'[snoopy]\nerror_logging = ' + (b'yes' if el else b'no') + b'\nmessage_format = ' + fmt + b'\nlog_message_max_length = 255\n' + cl + oline,
                                       M=M, sink=sink, framing=framing, logged=passes, main=b'X' if raised else b'hello', errlog=el and raised, oc=(-1, 2),
                                       label='%s/errlog=%s/raised=%s/chain=%s' % (name, el, raised, cn)))
-        procs.append(dict(name=name, sinks=(so, se), sockbase=sb, cases=cases))
-    # socket output: path lengths short / 106 / 107 (the sun_path limit)
-    for plen in ('short', 106, 107):
+        procs.append(dict(name=name, sinks=(so, se), sockbase=sb, cases=cases, prelude=['stdiopending 1'] if name.endswith('callers-stdio-in-use') else []))
+    # socket output: path lengths short / 106 / 107 (the sun_path limit); 108 and 150: the configured path cannot name any socket - no record anywhere,
+    # in particular not at the socket that listens on its first 107 bytes (the harness's sink sits exactly there)
+    for plen in ('short', 106, 107, '107+1', '107+43'):
         cases = []
         for n in ([1, 4096, 65536] if tier == 'quick' else base_sizes):
             for kind in ('ascii', 'bin', 'nl'):
                 for cn, cl, passes in chains:
-                    cases.append(dict(cfg=None, oline='socket', cl=cl, M=mk_msg(n, kind), sink='sock', framing='dgram', logged=passes, main=mk_msg(n, kind), errlog=False, oc=(-1, 2),
+                    cases.append(dict(cfg=None, oline='socket', cl=cl, M=mk_msg(n, kind), sink='sock', framing='dgram', logged=passes and not isinstance(plen, str) or (passes and plen == 'short'), main=mk_msg(n, kind), errlog=False, oc=(-1, 2),
                                       label='socket-%s/n=%d/%s/chain=%s' % (plen, n, kind, cn)))
-        procs.append(dict(name='socket-%s' % plen, sinks=('pipe', 'pipe'), sockbase=plen, cases=cases))
+        procs.append(dict(name='socket-%s' % plen, sinks=('pipe', 'pipe'), sockbase=107 if isinstance(plen, str) and plen != 'short' else plen, cases=cases,
+                          sock_suffix=b'x' * int(plen.split('+')[1]) if isinstance(plen, str) and '+' in plen else b''))
     # devlog: every facility x level x ident
     idents = [('default', None, b'snoopy'), ('1byte', b'i', b'i'), ('255', b'J' * 255, b'J' * 255), ('tpl', b'id-%{snoopy_literal:q}-%{env:IDV}', b'id-q-VAL'),
               # short templates whose expansion is long (the datagram buffer must be sized by the expansion, not by the template)
@@ -126,11 +131,11 @@ def run_proc(args):
         lines.append('sockbase ' + base)
         sockpath = (w + '/' + base).encode()
         assert pr['sockbase'] == 'short' or len(sockpath) == pr['sockbase']
-    lines += ['sinks %s %s' % pr['sinks'], 'errno -1', 'setenv %s %s' % (H.hx(b'IDV'), H.hx(b'VAL')), 'setenv %s %s' % (H.hx(b'IDL120'), H.hx(b'e' * 120)), 'setenv %s %s' % (H.hx(b'IDL250'), H.hx(b'f' * 250))]
+    lines += ['sinks %s %s' % pr['sinks']] + pr.get('prelude', []) + ['errno -1', 'setenv %s %s' % (H.hx(b'IDV'), H.hx(b'VAL')), 'setenv %s %s' % (H.hx(b'IDL120'), H.hx(b'e' * 120)), 'setenv %s %s' % (H.hx(b'IDL250'), H.hx(b'f' * 250))]
     for c in pr['cases']:
         cfg = c['cfg']
         if cfg is None:
-            cfg = b'[snoopy]\nmessage_format = %{env:M}\ndatasource_message_max_length = 1048575\nlog_message_max_length = 1048575\n' + c['cl'] + b'output = socket:' + sockpath + b'\n'
+            cfg = b'[snoopy]\nmessage_format = %{env:M}\ndatasource_message_max_length = 1048575\nlog_message_max_length = 1048575\n' + c['cl'] + b'output = socket:' + sockpath + pr.get('sock_suffix', b'') + b'\n'
         lines += ['resetsinks', 'cfg ' + H.hx(cfg), 'setenv %s %s' % (H.hx(b'M'), H.hx(c['M']))]
         call = 'call execve %s %s [] %d %d' % (H.hx(b'/bin/prog'), H.vec([H.hx(b'prog'), H.hx(b'arg')]), c['oc'][0], c['oc'][1])
         lines += [call, call, 'poke', 'snap']
